@@ -348,18 +348,27 @@ func familyValues(depth int, thorough bool) {
 	nlist := len(corpus) - nctor
 	// opaque composites: depth-1 signatures with all of Val, deeper ones with
 	// the distinguished and the zero value (thorough: all of Val)
-	sigs := enum.Sigs(enum.SigOpts{Depth: depth, Width: 2, Outer: "cCwWiIlLfdbsmo", Inner: "isbmC",
+	// 'o' only through a fixed list of signatures: every NewValue of a
+	// signature containing 'o' parses the ObjectReference signature twice
+	// (~1 ms)
+	sigs := enum.Sigs(enum.SigOpts{Depth: depth, Width: 2, Outer: "cCwWiIlLfdbsm", Inner: "isbmC",
 		OuterKeys: "cCwWiIlLbs", InnerKeys: "isC", Structs: true})
+	for _, s := range []string{"[o]", "(o)", "(oi)", "{so}", "(io)<S,a,b>"} {
+		sigs = append(sigs, refmodel.MustParse(s))
+	}
 	nop := 0
 	for _, t := range sigs {
 		if t.IsAtom() {
 			continue
 		}
-		if t.Depth() <= 1 || thorough {
+		if (t.Depth() <= 1 && !t.Contains(refmodel.Object)) || thorough {
 			for _, d := range enum.Vals(t) {
 				corpus = append(corpus, d)
 				nop++
 			}
+		} else if t.Contains(refmodel.Object) {
+			corpus = append(corpus, enum.Zero(t))
+			nop++
 		} else {
 			corpus = append(corpus, enum.Dist(t), enum.Zero(t))
 			nop += 2
@@ -544,7 +553,7 @@ func main() {
 	}
 	finish := func() int {
 		rule := "corpus x every cut position 0 <= k < len(e) x end-of-stream modes {data+EOF, EOF separate} (newvalue in quick: data+EOF only; messages also 1 byte per read): " +
-			"messages (8 types x payload 0,1,5,40); dynamic values (13 constructors x Val, value lists of depth <= 2, opaque composites of Sig(D,2): all of Val for depth-1 signatures, " +
+			"messages (8 types x payload 0,1,5,40); dynamic values (13 constructors x Val, value lists of depth <= 2, opaque composites of Sig(D,2) without o plus 5 fixed signatures containing o: all of Val for depth-1 signatures, " +
 			"distinguished+zero value deeper (thorough: all of Val)); typed data of Sig(D,2) through the signature reader and through the reflection decoder (all of Val for depth-1 signatures, distinguished+zero value deeper; thorough: all of Val); " +
 			"MetaObject / ObjectReference / ServiceInfo / CapabilityMap boundary values and real meta-objects through their generated readers. " +
 			"evaluations counts decoder runs. A case class is (decoder, signature shape or decoder field path, element kind and part containing the first missing byte, outcome); " +
